@@ -315,6 +315,17 @@ def prog_iteration(seed: int, n_ops: int = 8, *, eager=True, two_engines=True) -
         g.leaf("e1")
     allow = ("calc", "dedup", "proj", "sel", "slice", "sort") if eager else ("calc", "proj", "sel", "slice")
     observed: list[str] = []
+    if eager and rng.random() < 0.15:
+        # scenario: "does any row exist?" -- project onto no columns and deduplicate a relation whose
+        # declared bounds are loose (possibly empty content)
+        base = g.leaf("e0", nrows=rng.choice([0, 0, 1, 2]), bounds=rng.choice(["loose", "unbounded", "zero-min"]))
+        if rng.random() < 0.5 and g.cols[base]:
+            base = g.apply(base, ["sel", g.pred(g.cols[base], 1)], g.cols[base])
+        e = g.apply(base, ["proj"], frozenset())
+        d = g.apply(e, ["dedup"], frozenset())
+        observed += [e, d]
+        if rng.random() < 0.5:
+            observed.append(g.chain(d, d))
     for _ in range(n_ops):
         k = rng.random()
         t = g.pick()
@@ -359,6 +370,9 @@ def universe_ops(g: G, cols=("a", "b", "c")) -> list:
         ["sort", ["term", ["ref", b], "desc"]],
         ["sort", ["term", ["ref", a], "desc"], ["term", ["ref", b], "asc"]],
         ["sort", ["term", ["ref", c], "asc"]],
+        ["sort", ["term", ["ref", a], "asc"], ["term", ["ref", b], "asc"]],
+        ["sort", ["term", ["ref", b], "asc"], ["term", ["ref", a], "asc"]],
+        ["sort", ["term", ["ref", b], "asc"]],
         ["sort", ["term", ["ref", "x"], "desc"]],
         ["sort", ["term", ["fn", "neg", "*", ["ref", a]], "asc"], ["term", ["ref", b], "asc"]],
         ["calc", "x", ["fn", "add", "*", ["ref", a], ["ref", b]]],
@@ -429,6 +443,14 @@ def prog_commute_random(seed: int, n: int = 30) -> G:
         t = rng.choice(leaves)
         cur, ccols = g.rand_op(g.cols[t])
         new, _ = g.rand_op(ccols)
+        if cur[0] == "sort" and len(cur) > 1 and rng.random() < 0.5:
+            # a new sort that reuses terms of the existing one (subset / permutation / superset)
+            terms = [list(x) for x in cur[1:]]
+            rng.shuffle(terms)
+            keep = terms[: rng.randint(1, len(terms))]
+            if rng.random() < 0.4:
+                keep = keep + g.terms(g.cols[t], 1)
+            new = ["sort", *keep]
         if not op_valid_on(cur, g.cols[t]) or not op_valid_on(new, ccols):
             continue
         g.emit(["commute", new, cur, t])
@@ -606,6 +628,26 @@ def prog_sql(seed: int, n_ops: int = 8, *, sorts: float = 1.0, selfjoin: float =
     if rng.random() < 0.1:
         g.joinid("e0")
     observed: list[str] = []
+    if rng.random() < 0.3:
+        # scenario: both join operands are pure projections, each hiding a column the other one exposes
+        shared = sorted(rng.sample(["a", "b", "d"], rng.choice([2, 3])))
+        l1 = g.leaf("e0", cols=sorted(set(shared) | ({"c"} if rng.random() < 0.3 else set())))
+        l2 = g.leaf("e0", cols=shared)
+        hide1 = rng.choice(shared)
+        hide2 = rng.choice([c for c in shared if c != hide1])
+        p1 = g.apply(l1, ["proj", *sorted(g.cols[l1] - {hide1})], g.cols[l1] - {hide1})
+        p2 = g.apply(l2, ["proj", *sorted(g.cols[l2] - {hide2})], g.cols[l2] - {hide2})
+        observed.append(g.join(p1, p2, None) if rng.random() < 0.5 else g.join(p2, p1, None))
+    if rng.random() < 0.12:
+        # scenario: a zero-column "guard" relation (project onto nothing, deduplicate) joined to a table
+        base = g.leaf("e0", nrows=rng.choice([0, 0, 1, 2]), bounds=rng.choice(["loose", "unbounded", "zero-min"]))
+        if rng.random() < 0.5 and g.cols[base]:
+            base = g.apply(base, ["sel", g.pred(g.cols[base], 1)], g.cols[base])
+        guard = g.apply(g.apply(base, ["proj"], frozenset()), ["dedup"], frozenset())
+        other = g.pick(pred=lambda u: not (g.leaves_of.get(u, frozenset()) & g.leaves_of.get(guard, frozenset())))
+        observed.append(guard)
+        if other is not None:
+            observed.append(g.join(other, guard, None) if rng.random() < 0.5 else g.join(guard, other, None))
     allow = ["calc", "dedup", "proj", "sel", "slice"] + (["sort"] if rng.random() < sorts else [])
     for _ in range(n_ops):
         k = rng.random()
@@ -658,6 +700,41 @@ def prog_multi(seed: int, n_ops: int = 8, *, three: float = 0.3, prefs: float = 
     if rng.random() < 0.12:
         g.joinid(rng.choice(["e0", "e1"]))
     observed: list[str] = []
+    sc = rng.random()
+    if sc < 0.15:
+        # scenario: materialization of a chain whose LEFT branch is statically empty (has a payload),
+        # the right one needing real work; processed repeatedly
+        src = g.pick()
+        e_src = g.eng[src]
+        other = rng.choice([e for e in engines if e != e_src])
+        base = g.transfer(src, other)
+        op, nc = g.rand_op(g.cols[base], allow=("sel", "calc", "dedup"))
+        rhs = g.apply(base, op, nc)
+        if g.cols[rhs] == g.cols[base] or True:
+            lhs = g.doomed(other, cols=sorted(g.cols[rhs]))
+            ch = g.chain(lhs, rhs) if rng.random() < 0.7 else g.chain(rhs, lhs)
+            m = g.mat(ch)
+            observed += [m]
+            if g.cols[m]:
+                op2, nc2 = g.rand_op(g.cols[m], allow=("proj", "sel"))
+                observed.append(g.apply(m, op2, nc2))
+    elif sc < 0.3:
+        # scenario: operations downstream of a transfer, then a projection onto the columns of an
+        # ancestor, preferred in the source engine
+        src = g.pick()
+        other = rng.choice([e for e in engines if e != g.eng[src]])
+        cur = g.transfer(src, other)
+        anc = [cur]
+        for _ in range(rng.choice([1, 2])):
+            op, nc = g.rand_op(g.cols[cur], allow=("calc", "sel", "dedup", "sort"))
+            cur = g.apply(cur, op, nc)
+            anc.append(cur)
+        target_cols = g.cols[rng.choice(anc[:-1])]
+        if target_cols <= g.cols[cur]:
+            plain = g.apply(cur, ["proj", *sorted(target_cols)], target_cols)
+            pr = g.apply(cur, ["proj", *sorted(target_cols)], target_cols,
+                         g.opts(g.eng[src], True, rng.random() < 0.3, rng.random() < 0.3))
+            observed += [plain, pr]
     for _ in range(n_ops):
         k = rng.random()
         t = g.pick()
@@ -700,7 +777,7 @@ def prog_multi(seed: int, n_ops: int = 8, *, three: float = 0.3, prefs: float = 
         g.emit(["exec", p])
         g.emit(["sqlexec", p])
         g.emit(["sem", r])
-        if rng.random() < 0.25:
+        if rng.random() < 0.4:
             q = "q" + r[1:]
             g.emit(["process", q, r])
             g.emit(["exec", q])
